@@ -60,7 +60,7 @@ func SelfTest(verifDir, what string, seed uint64) (int, error) {
 			return 2, err
 		}
 		ex := []string{"-sites", fmt.Sprint(sites)}
-		targets = append(targets, target{"conc", "C20", "asm", plain, ex, nil}, target{"conc", "C20", "asm", race, ex, []string{"GORACE=halt_on_error=1 exitcode=66"}})
+		targets = append(targets, target{"conc", "C20", "asm", plain, ex, nil}, target{"conc", "C20", "asm", race, ex, []string{"GORACE=halt_on_error=1 exitcode=66 history_size=7"}})
 	}
 	if len(targets) == 0 {
 		return 2, harnessErr("selftest: unknown target %q (all|sign|pool|conc)", what)
